@@ -548,38 +548,67 @@ fn do_send(w: &mut World, b: usize) -> String {
     let total = hdr.len() + msg.get_buf().len();
     let send = &mut w.conn.send;
     let peer = &w.peer;
-    let mut write = move || -> Result<(), String> {
-        match send.send_message(msg) {
-            Ok(ctx) => match ctx.write(Timeout::Duration(HANG)) {
-                Ok(_) => Ok(()),
-                Err((ctx, e)) => {
-                    ctx.force_finish();
-                    Err(format!("{:?}", e))
+    // One thread: write_once(Nonblock) until the socket buffer is full, then let the peer read some,
+    // and so on. A message larger than the socket buffer therefore takes several sendmsg calls.
+    let mut bytes: Vec<u8> = Vec::with_capacity(total);
+    let mut fds: Vec<RawFd> = Vec::new();
+    let wres: Result<(), String> = match send.send_message(msg) {
+        Err(e) => Err(format!("{:?}", e)),
+        Ok(mut ctx) => {
+            let mut r = Ok(());
+            let mut spins = 0u32;
+            loop {
+                match ctx.write_once(Timeout::Nonblock) {
+                    Ok(_) => {
+                        if ctx.all_bytes_written() {
+                            break;
+                        }
+                    }
+                    Err(rustbus::connection::Error::IoError(e)) if e.kind() == std::io::ErrorKind::WouldBlock => {
+                        spins += 1;
+                        let want = std::cmp::min(65536, total - bytes.len());
+                        if want == 0 || spins > 100_000 {
+                            r = Err("socket full although the peer has read everything".to_string());
+                            break;
+                        }
+                        match recv_all(peer, want, None) {
+                            Ok((b, f)) => {
+                                bytes.extend_from_slice(&b);
+                                fds.extend(f);
+                            }
+                            Err(e) => {
+                                r = Err(e);
+                                break;
+                            }
+                        }
+                    }
+                    Err(e) => {
+                        r = Err(format!("{:?}", e));
+                        break;
+                    }
                 }
-            },
-            Err(e) => Err(format!("{:?}", e)),
+            }
+            if r.is_err() {
+                ctx.force_finish();
+            }
+            r
         }
     };
-    let (wres, rres) = if total > 60_000 {
-        // larger than the socket buffer: the peer has to read while the library writes
-        let failed = std::sync::atomic::AtomicBool::new(false);
-        std::thread::scope(|s| {
-            let fl = &failed;
-            let wr = s.spawn(move || {
-                let r = write();
-                if r.is_err() {
-                    fl.store(true, std::sync::atomic::Ordering::SeqCst);
-                }
-                r
-            });
-            let rres = recv_all(peer, total, Some(&failed));
-            let wres = wr.join().unwrap_or_else(|_| Err("panic".into()));
-            (wres, rres)
-        })
+    let rres = if wres.is_ok() {
+        let rest = total - bytes.len();
+        match recv_all(peer, rest, None) {
+            Ok((b, f)) => {
+                bytes.extend_from_slice(&b);
+                fds.extend(f);
+                Ok((bytes, fds))
+            }
+            Err(e) => Err(e),
+        }
     } else {
-        let wres = write();
-        let rres = if wres.is_ok() { recv_all(peer, total, None) } else { Err("not sent".into()) };
-        (wres, rres)
+        for f in fds.drain(..) {
+            let _ = nix::unistd::close(f);
+        }
+        Err("not sent".to_string())
     };
     match (wres, rres) {
         (Ok(()), Ok((bytes, fds))) => {
@@ -909,7 +938,11 @@ fn run_history(line: &str) -> String {
         if op.trim().is_empty() {
             continue;
         }
-        let r = do_op(&mut w, op);
+        // a panic inside the library is an observable result of the operation, not the end of the history
+        let r = match std::panic::catch_unwind(std::panic::AssertUnwindSafe(|| do_op(&mut w, op))) {
+            Ok(r) => r,
+            Err(_) => "\"res\":\"panic\"".to_string(),
+        };
         let closes: Vec<(RawFd, bool)> = std::mem::take(&mut *CLOSE_LOG.lock().unwrap());
         let cl = jlist(&closes, |(f, ok)| format!("[{},{}]", f, ok));
         out.push(format!("{{{},\"closes\":{},{}}}", r, cl, snapshot(&w)));
